@@ -221,11 +221,14 @@ func c12Draw(rt *rapid.T) c12Case {
 			}
 			for j := 0; j < nd; j++ {
 				d := c12DrawDeploy(rt, addr)
-				if len(prev) > 0 && rapid.IntRange(0, 2).Draw(rt, "again") == 0 {
+				if len(prev) > 0 && rapid.IntRange(0, 1).Draw(rt, "again") == 0 {
 					// come back to a path used before, with another file set / version / visibility
-					d.Path, d.Name = prev[rapid.IntRange(0, len(prev)-1).Draw(rt, "prev")].Path, ""
-					d.Name = c12NameFor(d.Path)
-					d.Private = rapid.IntRange(0, 2).Draw(rt, "private2") != 0
+					d0 := prev[rapid.IntRange(0, len(prev)-1).Draw(rt, "prev")]
+					d.Path, d.Name = d0.Path, c12NameFor(d0.Path)
+					d.Private = rapid.IntRange(0, 3).Draw(rt, "private2") != 0
+					if d0.Private && (d0.Files == 1 || d0.Files == 4 || d0.Files == 5) {
+						d.Files = rapid.SampledFrom([]int{0, 2, 0, 2, 1, 3}).Draw(rt, "files2") // mostly drop the test files
+					}
 				}
 				prev = append(prev, d)
 				op.Deploys = append(op.Deploys, d)
@@ -497,6 +500,9 @@ func c12Exec(ctx *vk.Ctx, c c12Case) error {
 					if c.Registry && !c12Authorized(e.keys, op.Creator, d.Path) {
 						return fmt.Errorf("%s: deployment by %s accepted in a namespace the registry does not grant to it", lab, creator.Addr)
 					}
+					if _, setup := e.basePkg["pkg:"+d.Path]; setup {
+						return fmt.Errorf("%s: the public package %q deployed during setup was replaced", lab, d.Path)
+					}
 					if prev != nil && !prev.private {
 						return fmt.Errorf("%s: public package %q (deployed at height %d) was replaced", lab, d.Path, prev.height)
 					}
@@ -604,7 +610,7 @@ func c12Exec(ctx *vk.Ctx, c c12Case) error {
 				}
 			}
 			for _, d := range op.Deploys {
-				if model[d.Path] == nil {
+				if _, setup := e.basePkg["pkg:"+d.Path]; model[d.Path] == nil && !setup {
 					if _, ok := c12ValidPath(d.Path); ok {
 						if got, err := e.qfile(d.Path); err == nil {
 							return fmt.Errorf("%s: vm/qfile lists files %q for %q although no deployment there was accepted", label, got, d.Path)
